@@ -424,8 +424,8 @@ def shape(info):
     return "ok-merge%s%s" % (min(nm, 3), "+replace" if "replace" in descs else "")
 
 
-def cases_of(tier, lo, hi):
-    fam = family(tier)
+def cases_of(tier, lo, hi, fam=None):
+    fam = fam if fam is not None else family(tier)
     targets, kinds = dims(tier)
     for i in range(lo, hi):
         fname, dx1, dx2, dy2, sx2, dz1, il, mirror = fam[i]
